@@ -1004,7 +1004,9 @@ theorem loop_spec (cfg : Cfg) {ws : List Int} {k : Nat} {crit : List WI} (m M : 
           omega
         have hu1' : ((loads ws ids k).set o (lo - w))[u]? = some lu := by
           rw [List.getElem?_set]; simp [huo, hu1]
-        simp only [hidl, if_true, csub_of_le cfg (fun _ => hwle), hu1']
+        simp only [hidl, if_true, csub_of_le cfg (fun _ => hwle), hu1]
+        split
+        · exact ⟨ids, cnt, rfl, hlen, hr, hbd⟩
         have hpl' : ((loads ws ids k).set o (lo - w)).set u (lu + w) = loads ws (ids.set id u) k := by
           rw [loads_set hido hwid huo hok huk, hlo, hlu]
         rw [hpl']
@@ -1023,6 +1025,15 @@ theorem loop_spec (cfg : Cfg) {ws : List Int} {k : Nat} {crit : List WI} (m M : 
             · exact hbd _ hx
             · omega
           · omega
+
+/-- The guard added by commit bff6050 (N9) – `break` unless both new loads are strictly below
+the current maximum – never fires on exact weights: after `imbalance > w > 0` the new overweight
+load `lo - w` and the new underweight load `lu + w` are both `< lo`. -/
+theorem guard_vacuous_int {lo lu w : Int} (hw : 0 < w) (hlt : w < lo - lu) :
+    (!(decide (lo - w < lo) && decide (lu + w < lo))) = false := by
+  have h1 : lo - w < lo := by omega
+  have h2 : lu + w < lo := by omega
+  simp [h1, h2]
 
 /-- No weight is negative once the `any(< 0)` test has failed. -/
 theorem nonneg_of_not_any {ws : List Int} (h : ¬ ws.any (fun w => decide (w < 0)) = true) :
